@@ -242,6 +242,68 @@ def _judge(r, suite, entry, label, args, jargs):
                jargs, "every pairing argument on its curve and in the prime-order subgroup", prob, note=label)
 
 
+def fedback_case(suite, which):
+    """[(label, expected, observed, monitor events)] the object a library function returned for an invalid key
+    (the aggregate of a one-key list, a decoded-and-re-encoded key) presented as a public key"""
+    C = BL.suite_cls(suite)
+    P = BL.suite_cls("pop")
+    G = params.bls_g1()
+    T = BL.torsion_points("E1")["T_11"]
+    bad = {"sk*G + T": MB.g1_bytes(E1.add(E1.mul(G, SK[0]), T)), "T": MB.g1_bytes(T),
+           "identity": MB.g1_bytes(None)}[which]
+    sig = MB.sign(suite, SK[0], MSGS[0])
+    out = []
+    objs = []
+    agg = getattr(P, "_AggregatePKs", None)
+    if agg is not None:
+        o = BL.call(agg, [bad])
+        if o[0] == "ok":
+            objs.append(("_AggregatePKs([key])", o[1]))
+        o = BL.call(agg, [bad, bad])
+        if o[0] == "ok":
+            objs.append(("_AggregatePKs([key, key])", o[1]))
+    g2p = __import__("importlib").import_module("py_ecc.bls.g2_primitives")
+    o = BL.call(lambda: g2p.G1_to_pubkey(g2p.pubkey_to_G1(bad)))
+    if o[0] == "ok":
+        objs.append(("G1_to_pubkey(pubkey_to_G1(key))", o[1]))
+    for lbl, obj in objs:
+        try:
+            want_valid = MB.key_validate(bytes(obj))
+        except Exception:  # noqa: BLE001
+            want_valid = False
+        for entry, f in (("KeyValidate", lambda: C.KeyValidate(obj)), ("Verify", lambda: C.Verify(obj, MSGS[0], sig)),
+                         ("AggregateVerify", lambda: C.AggregateVerify([obj], [MSGS[0]], sig))) + \
+                ((("FastAggregateVerify", lambda: C.FastAggregateVerify([obj], MSGS[0], sig)), ("PopVerify", lambda: C.PopVerify(obj, sig))) if suite == "pop" else ()):
+            with BL.Monitor() as mon:
+                got = BL.verdict(f)
+            exp = want_valid if entry == "KeyValidate" else False
+            out.append(("%s(%s of %s)" % (entry, lbl, which), exp, got, list(mon.events)))
+    return out
+
+
+def task_fedback(a, env):
+    r = R("returned-objects-as-keys:%s" % a["suite"])
+    for which in ("sk*G + T", "T", "identity"):
+        for lbl, exp, got, events in fedback_case(a["suite"], which):
+            r.ev += 1
+            r.dk.add(lbl)
+            if got != exp:
+                r.viol("C04:%s:returned-object-as-key:%s" % (a["suite"], lbl.split("(")[0]), ME + ":replay_fedback",
+                       {"suite": a["suite"], "which": which}, exp, got, note=lbl)
+            for (fn, idx, prob) in events:
+                r.viol("C04:%s:returned-object-as-key:monitor:%s-arg%d" % (a["suite"], fn, idx), ME + ":replay_fedback",
+                       {"suite": a["suite"], "which": which}, "every pairing argument on its curve and in the prime-order subgroup", prob, note=lbl)
+    r.sample({"suite": a["suite"], "case": "KeyValidate(G2ProofOfPossession._AggregatePKs([key outside the subgroup]))"})
+    return r
+
+
+def replay_fedback(a):
+    for lbl, exp, got, events in fedback_case(a["suite"], a["which"]):
+        if got != exp or events:
+            return {"case": lbl, "expected": exp, "observed": got, "monitor": [list(e) for e in events][:3]}
+    return None
+
+
 def _resolve(a, env):
     thorough = a["tier"] == "thorough"
     suite, entry = a["suite"], a["entry"]
@@ -418,4 +480,6 @@ def run(ctx):
     ctx.bounds["calls"] = len(plan)
     # expensive (aggregate) tasks first
     tasks.sort(key=lambda t: 0 if "Aggregate" in t[1]["entry"] else 1)
+    for s_ in BL.SUITES:
+        tasks.append(("fedback", {"suite": s_}))
     ctx.pmap(ME, tasks)
